@@ -116,7 +116,9 @@ def _estimate(ck, tier):
     sizes = [0, 1, 1023, 1024, 1025, 5000, 131071, 131072, 131073, 200000, 300001, 1048577]
     for size in sizes:
         for pos0 in sorted({0, size // 3, size}):
-            data = bytes(size) if rnd.random() < 0.5 else rnd.randbytes(size)
+            data = rnd.choice([bytes(size), rnd.randbytes(size),
+                               (rnd.choice([b'\x1f\x8b\x08', b'PK\x03\x04', b'\x89PNG\r\n\x1a\n', b'BZh9', b'\xfd7zXZ\x00', b'\x28\xb5\x2f\xfd', b'\xff\xd8\xff'])
+                                + rnd.randbytes(size))[:size]])   # zeros, noise, noise behind the signature of a compressed format
             s = Rec(data)
             s.seek(pos0)
             s.seeks.clear()
